@@ -611,7 +611,14 @@ func (e *Exec) strToBytes(s *StrV, et types.Type) SliceV {
 
 // ---------- maps ----------
 
-func (e *Exec) keyEq(a, b Value, kt types.Type) *Term { return e.equal(a, b, kt) }
+func (e *Exec) keyEq(a, b Value, kt types.Type) *Term {
+	if kt == nil {
+		if _, ok := a.(IfaceV); !ok {
+			return e.tc.Bool(false)
+		}
+	}
+	return e.equal(a, b, kt)
+}
 
 func (e *Exec) mapFind(m *MapV, k Value) *mapEntry {
 	for _, en := range m.E {
